@@ -42,6 +42,13 @@ pub enum Tail {
     /// thread `victim` (index among registered threads, modulo) is not scheduled during
     /// [from, from+len) unless nothing else can run; uniform otherwise
     Starve { seed: u64, victim: u8, from: u32, len: u32 },
+    /// every time a thread reaches a point of kind `at`, it is held with probability `prob`/256
+    /// until `until`; sticky-random otherwise
+    DelayAt { seed: u64, at: u32, prob: u8, until: Until, stay: u8 },
+    /// adaptive: a worker that has just claimed the validation of a transaction whose last
+    /// successful validation predates a rewind covering it is held (before it takes the status
+    /// lock) for up to `len` steps or until the finality loop has looked at that transaction
+    StaleValidation { seed: u64, len: u32, stay: u8 },
 }
 
 #[derive(Clone, Debug, Serialize, Deserialize, PartialEq)]
@@ -49,6 +56,8 @@ pub enum Until {
     Steps(u32),
     /// n-th event of the given kind (see `Ev::kind_code`) after the hold started
     Event(u32, u8),
+    /// whichever comes first
+    EventOrSteps(u32, u8, u32),
 }
 
 #[derive(Clone, Debug, Serialize, Deserialize, PartialEq)]
@@ -59,7 +68,10 @@ pub struct Hold {
     pub nth_thread: u8,
     /// point kind (grevm::verif::pt::*)
     pub at: u32,
-    /// n-th occurrence of that point on that thread (0-based)
+    /// only occurrences whose hook argument (usually the transaction index) equals this
+    #[serde(default)]
+    pub arg: Option<u16>,
+    /// n-th matching occurrence on that thread (0-based)
     pub nth: u8,
     pub until: Until,
 }
@@ -160,6 +172,7 @@ pub enum Ev {
     Parked { thread: usize },
     Unparked { thread: usize, by_token: bool },
     TimerFired,
+    Diag(String),
     /// harness-generated (free form)
     Note { code: u32, a: usize, b: usize },
 }
@@ -189,6 +202,7 @@ impl Ev {
             Ev::Unparked { .. } => 20,
             Ev::TimerFired => 21,
             Ev::Note { .. } => 22,
+            Ev::Diag(_) => 23,
         }
     }
 }
@@ -262,8 +276,12 @@ struct Th {
     spin_epoch: Option<u64>,
     /// hold expiry condition, if held
     held: Option<(Until, u64 /*start step*/, u64 /*events of kind at start*/)>,
-    point_counts: HashMap<u32, u32>,
+    /// per hold: matching hits so far
+    hold_hits: Vec<u32>,
     priority: u64,
+    /// passed a non-spin hook since its last spin/park: it may have written shared state after
+    /// the last epoch bump (e.g. released a lock), so its next spin/park must bump the epoch
+    dirty: bool,
 }
 
 #[derive(Clone, Debug, Default, Serialize, Deserialize, PartialEq)]
@@ -314,6 +332,9 @@ struct Ctl {
     deadlock: Option<String>,
     inconclusive: Option<String>,
     record_events: bool,
+    /// transactions whose latest validation succeeded / of those, the ones a later rewind covered
+    validated_ok: std::collections::HashSet<usize>,
+    stale_validated: std::collections::HashSet<usize>,
     on_stuck: Option<Box<dyn Fn() + Send>>,
     trace: Option<Vec<(u16, u32)>>,
 }
@@ -343,6 +364,8 @@ impl Ctl {
             deadlock: None,
             inconclusive: None,
             record_events: true,
+            validated_ok: Default::default(),
+            stale_validated: Default::default(),
             on_stuck: None,
             trace: None,
         }
@@ -363,6 +386,10 @@ impl Ctl {
             Some((Until::Steps(n), start, _)) => self.steps >= start + *n as u64,
             Some((Until::Event(kind, nth), _, at_start)) => {
                 self.event_counts.get(kind).copied().unwrap_or(0) >= at_start + 1 + *nth as u64
+            }
+            Some((Until::EventOrSteps(kind, nth, n), start, at_start)) => {
+                self.steps >= start + *n as u64
+                    || self.event_counts.get(kind).copied().unwrap_or(0) >= at_start + 1 + *nth as u64
             }
         }
     }
@@ -432,6 +459,8 @@ impl Ctl {
                     .collect();
                 if !parked.is_empty() && self.timer_fired < 64 {
                     self.timer_fired += 1;
+                    let d = self.describe();
+                    self.log_ev(None, Ev::Diag(d));
                     self.log_ev(None, Ev::TimerFired);
                     for p in parked {
                         // park_timeout returns without a token
@@ -498,6 +527,15 @@ impl Ctl {
                 }
                 *el.iter().max_by_key(|&&i| (self.threads[i].priority, u32::MAX - self.threads[i].key)).unwrap()
             }
+            Tail::DelayAt { stay, .. } | Tail::StaleValidation { stay, .. } => {
+                if let Some(me) = me {
+                    if el.contains(&me) && (self.next_u() & 0xff) < stay as u64 {
+                        return me;
+                    }
+                }
+                let r = self.next_u();
+                el[(r % el.len() as u64) as usize]
+            }
             Tail::Starve { victim, from, len, .. } => {
                 let mut all: Vec<usize> = (0..self.threads.len()).collect();
                 all.sort_by_key(|&i| self.threads[i].key);
@@ -521,6 +559,28 @@ impl Ctl {
 
     fn log_ev(&mut self, thread: Option<usize>, ev: Ev) {
         *self.event_counts.entry(ev.kind_code()).or_insert(0) += 1;
+        match &ev {
+            Ev::ValidationEnd { txid, conflict, .. } => {
+                self.stale_validated.remove(txid);
+                if *conflict {
+                    self.validated_ok.remove(txid);
+                } else {
+                    self.validated_ok.insert(*txid);
+                }
+            }
+            Ev::AttemptStart { txid, .. } | Ev::Finality { txid, .. } => {
+                self.validated_ok.remove(txid);
+                self.stale_validated.remove(txid);
+            }
+            Ev::Rewind { index, previous, .. } => {
+                for k in *index..*previous {
+                    if self.validated_ok.contains(&k) {
+                        self.stale_validated.insert(k);
+                    }
+                }
+            }
+            _ => {}
+        }
         if self.record_events {
             let step = self.steps;
             self.log.push(LoggedEv { step, thread, ev });
@@ -589,7 +649,7 @@ impl Controller {
             g.trace = Some(Vec::new());
         }
         let seed = match &schedule.tail {
-            Tail::Uniform { seed } | Tail::Sticky { seed, .. } | Tail::Pct { seed, .. } | Tail::Starve { seed, .. } => *seed,
+            Tail::Uniform { seed } | Tail::Sticky { seed, .. } | Tail::Pct { seed, .. } | Tail::Starve { seed, .. } | Tail::DelayAt { seed, .. } | Tail::StaleValidation { seed, .. } => *seed,
             _ => 0,
         };
         g.rng = seed ^ 0xD1B54A32D192ED03;
@@ -598,7 +658,7 @@ impl Controller {
             cps.sort();
             g.pct_change_points = cps;
         }
-        g.threads.push(Th { st: St::Run, key: 0, role: ROLE_MAIN, nth_of_role: 0, spin_epoch: None, held: None, point_counts: HashMap::new(), priority: u64::MAX / 2 });
+        g.threads.push(Th { st: St::Run, key: 0, role: ROLE_MAIN, nth_of_role: 0, spin_epoch: None, held: None, hold_hits: Vec::new(), priority: u64::MAX / 2, dirty: false });
         g.current = Some(0);
         self.generation.store(generation, Ordering::Release);
         self.active.store(true, Ordering::Release);
@@ -722,7 +782,7 @@ impl Controller {
     }
 
     /// Core: set my state, pick the next thread, hand over the baton, wait for my turn.
-    fn switch(&self, mut g: MutexGuard<'_, Ctl>, me: usize, st: St, kind: u32) {
+    fn switch(&self, mut g: MutexGuard<'_, Ctl>, me: usize, st: St, kind: u32, arg: usize) {
         let generation = g.generation;
         g.threads[me].st = st;
         g.steps += 1;
@@ -736,20 +796,42 @@ impl Controller {
             self.release(g);
             return;
         }
+        if let Tail::DelayAt { at, prob, until, .. } = g.schedule.tail.clone() {
+            if at == kind && g.threads[me].held.is_none() && (g.next_u() & 0xff) < prob as u64 {
+                let at_start = match &until {
+                    Until::Event(k, _) | Until::EventOrSteps(k, _, _) => g.event_counts.get(k).copied().unwrap_or(0),
+                    _ => 0,
+                };
+                let steps = g.steps;
+                g.threads[me].held = Some((until, steps, at_start));
+                g.stats.holds_fired += 1;
+            }
+        }
+        if let Tail::StaleValidation { len, .. } = g.schedule.tail {
+            if kind == grevm::verif::pt::LOCK_TX_STATE_NEXT_VALIDATION && g.stale_validated.contains(&arg) && g.threads[me].held.is_none() {
+                let at_start = g.event_counts.get(&6).copied().unwrap_or(0);
+                let steps = g.steps;
+                g.threads[me].held = Some((Until::EventOrSteps(6, 0, len), steps, at_start));
+                g.stats.holds_fired += 1;
+            }
+        }
         // holds
         if !g.schedule.holds.is_empty() {
             let role = g.threads[me].role;
             let nth_thread = g.threads[me].nth_of_role;
-            let cnt = {
-                let c = g.threads[me].point_counts.entry(kind).or_insert(0);
-                *c += 1;
-                *c - 1
-            };
             let holds = g.schedule.holds.clone();
-            for h in holds.iter() {
-                if h.role == role && h.nth_thread == nth_thread && h.at == kind && h.nth as u32 == cnt {
+            if g.threads[me].hold_hits.len() < holds.len() {
+                g.threads[me].hold_hits.resize(holds.len(), 0);
+            }
+            for (hi, h) in holds.iter().enumerate() {
+                if !(h.role == role && h.nth_thread == nth_thread && h.at == kind && h.arg.map_or(true, |a| a as usize == arg)) {
+                    continue;
+                }
+                let cnt = g.threads[me].hold_hits[hi];
+                g.threads[me].hold_hits[hi] += 1;
+                if h.nth as u32 == cnt {
                     let at_start = match &h.until {
-                        Until::Event(k, _) => g.event_counts.get(k).copied().unwrap_or(0),
+                        Until::Event(k, _) | Until::EventOrSteps(k, _, _) => g.event_counts.get(k).copied().unwrap_or(0),
                         _ => 0,
                     };
                     let steps = g.steps;
@@ -804,7 +886,7 @@ impl Controller {
             z = (z ^ (z >> 27)).wrapping_mul(0x94D049BB133111EB);
             (z ^ (z >> 31)) | (1 << 40)
         };
-        g.threads.push(Th { st: St::Run, key, role, nth_of_role: nth, spin_epoch: None, held: None, point_counts: HashMap::new(), priority: pr });
+        g.threads.push(Th { st: St::Run, key, role, nth_of_role: nth, spin_epoch: None, held: None, hold_hits: Vec::new(), priority: pr, dirty: false });
         ME.with(|m| m.set(Some((generation, id))));
         drop(g);
         self.reg_cv.notify_all();
@@ -863,7 +945,8 @@ impl VerifHooks for Controller {
             return;
         }
         g.epoch += 1;
-        self.switch(g, me, St::Run, kind);
+        g.threads[me].dirty = true;
+        self.switch(g, me, St::Run, kind, _a);
     }
 
     fn lock_point(&self, kind: u32, _a: usize, is_locked: &dyn Fn() -> bool) {
@@ -877,7 +960,8 @@ impl VerifHooks for Controller {
                 return;
             }
             g.epoch += 1;
-            self.switch(g, me, St::Run, kind);
+            g.threads[me].dirty = true;
+            self.switch(g, me, St::Run, kind, _a);
         }
         let mut waited = false;
         while is_locked() {
@@ -890,7 +974,7 @@ impl VerifHooks for Controller {
                 waited = true;
             }
             let e = g.epoch;
-            self.switch(g, me, St::Blocked(e), kind);
+            self.switch(g, me, St::Blocked(e), kind, usize::MAX);
         }
     }
 
@@ -903,6 +987,10 @@ impl VerifHooks for Controller {
         if !g.active || g.released {
             return;
         }
+        if g.threads[me].dirty {
+            g.threads[me].dirty = false;
+            g.epoch += 1;
+        }
         let e = g.epoch;
         let st = if g.threads[me].spin_epoch == Some(e) {
             g.stats.idle_marks += 1;
@@ -911,7 +999,7 @@ impl VerifHooks for Controller {
             St::Run
         };
         g.threads[me].spin_epoch = Some(e);
-        self.switch(g, me, st, 1);
+        self.switch(g, me, st, 1, 0);
     }
 
     fn park(&self, slot: usize) -> bool {
@@ -927,13 +1015,17 @@ impl VerifHooks for Controller {
             return true;
         }
         g.stats.parks += 1;
+        if g.threads[me].dirty {
+            g.threads[me].dirty = false;
+            g.epoch += 1;
+        }
         if g.tokens.get(&slot).copied().unwrap_or(false) {
             g.tokens.insert(slot, false);
             g.log_ev(Some(me), Ev::Unparked { thread: me, by_token: true });
             return true;
         }
         g.log_ev(Some(me), Ev::Parked { thread: me });
-        self.switch(g, me, St::Parked(slot), 2);
+        self.switch(g, me, St::Parked(slot), 2, 0);
         let mut g = self.lock();
         if g.active && !g.released {
             g.tokens.insert(slot, false);
@@ -951,6 +1043,9 @@ impl VerifHooks for Controller {
             return;
         }
         g.epoch += 1;
+        if let Some(me) = me {
+            g.threads[me].dirty = true;
+        }
         let mut woke = None;
         for (i, t) in g.threads.iter_mut().enumerate() {
             if t.st == St::Parked(slot) {
